@@ -263,12 +263,15 @@ func (rg *rig) readCase(cs caseSpec, id string, rng *rand.Rand) {
 // connections closed first), polled down to `floor` for a short while. Only
 // for backends where the number is exact; -1 otherwise.
 func (rg *rig) openNow(floor int) int {
+	max := 10 * time.Second
 	switch rg.family {
 	case "fake", "azure", "http":
+	case "grpc":
+		max = 1500 * time.Millisecond // RPCs begun and not ended, counted inside this process
 	default:
 		return -1
 	}
-	deadline := time.Now().Add(10 * time.Second)
+	deadline := time.Now().Add(max)
 	sleep := 200 * time.Microsecond
 	for {
 		rg.be.closeIdle()
